@@ -29,7 +29,10 @@ H = Harness("C09", ["OQ.Base.Ring", "OQ.Base.CaseEq", "OQ.Pauli.Algebra", "OQ.Pa
             "isherm (simplified / unsimplified / real-coefficient operands), reverse (n given or default, too small), "
             "expect (dyadic unit states with amplitudes of modulus 2^-k/2, both values of reverse_operator), frommat "
             "(random dense dyadic complex matrices, sparse ones, matrices of random operators; 2x2, 4x4, 8x8; as lists of rows or numpy arrays; "
-            "non-square and non-power-of-two rows -> error), width; non-trivial = two or more acted qubits, two or "
+            "non-square and non-power-of-two rows -> error), width; the NUMERIC TYPE is a generator dimension recorded in the "
+            "kind label: coefficients all Python int / int+float / int+complex-with-zero-imaginary / mixed / one numpy type "
+            "per operand (int64 int32 int8 uint8 float64 float32 complex128 complex64), matrices as lists of int / float / "
+            "mixed rows or numpy arrays of those dtypes, states as lists or arrays of int / float / complex dtype; non-trivial = two or more acted qubits, two or "
             "more terms, or a matrix of size >= 4")
 
 LET = "XYZ"
@@ -38,15 +41,30 @@ P2 = {"I": np.eye(2, dtype=complex), "X": np.array([[0, 1], [1, 0]], dtype=compl
 
 # ----------------------------------------------------------------------------- operands <-> Python / Coq
 
+INT_TYS = ("int", "npint64", "npint32", "npint8", "npuint8")
+REAL_TYS = INT_TYS + ("float", "npfloat64", "npfloat32")
+
 def pyval(c):
+    """the coefficient with the numeric type named by ty: Python int / float / complex or np<dtype>"""
     re, im, e, ty = c
-    if ty == "int":
+    if "int" in ty:
         assert im == 0 and e == 0
-        return int(re)
-    if ty == "float":
+        return int(re) if ty == "int" else getattr(np, ty[2:])(int(re))
+    if "float" in ty:
         assert im == 0
-        return re / 2 ** e
-    return complex(re / 2 ** e, im / 2 ** e)
+        return re / 2 ** e if ty == "float" else getattr(np, ty[2:])(re / 2 ** e)
+    z = complex(re / 2 ** e, im / 2 ** e)
+    return z if ty == "complex" else getattr(np, ty[2:])(z)
+
+def ty_of(x):
+    """name of the numeric type of a coefficient the implementation returned"""
+    if type(x) in (int, bool):
+        return "int"
+    if type(x) is float:
+        return "float"
+    if type(x) is complex:
+        return "complex"
+    return "np" + type(x).__name__
 
 def cval(c):
     return complex(Fraction(c[0], 2 ** c[2]), Fraction(c[1], 2 ** c[2]))
@@ -68,7 +86,7 @@ def from_number(z):
 
 def from_py(x):
     if isinstance(x, PauliTerm):
-        return dict(k="T", c=from_number(x.coefficient) + ["complex"], ops=sorted([int(q), a] for q, a in x._ops.items()))
+        return dict(k="T", c=from_number(x.coefficient) + [ty_of(x.coefficient)], ops=sorted([int(q), a] for q, a in x._ops.items()))
     if isinstance(x, PauliSum):
         return dict(k="S", terms=[from_py(t) for t in x.terms])
     raise TypeError(f"unexpected result type {type(x)}")
@@ -138,21 +156,49 @@ def nontrivial(o):
 
 # ----------------------------------------------------------------------------- generators
 
-def g_coef(rng, zero_p=0.06, real=False):
-    ty = rng.choice(["int", "float", "complex", "complex", "complex"])
-    if real and ty == "complex":
-        ty = "float"
+# numeric-type mixes of the coefficients of one operand: label -> the types its terms draw from
+CT = {
+    "mixed":     ["int", "float", "complex", "complex", "complex"],
+    "allint":    ["int"],
+    "int+float": ["int", "int", "float"],
+    "int+cplx0": ["int", "int", "complex0"],
+    "npint":     None,                      # one numpy integer type for the whole operand (chosen per operand)
+    "npfloat":   None,                      # np.float64 or np.float32
+    "npcomplex": None,                      # np.complex128 or np.complex64
+}
+CT_REAL = ["mixed", "allint", "allint", "int+float", "npint", "npfloat"]
+CT_ALL = ["mixed", "mixed", "mixed", "allint", "allint", "int+float", "int+cplx0", "npint", "npint", "npfloat", "npcomplex"]
+
+def g_ct(rng, real=False):
+    """(label, list of type names)"""
+    ct = rng.choice(CT_REAL if real else CT_ALL)
+    if ct == "npint":
+        return ct, [rng.choice(["npint64", "npint64", "npint32", "npint8", "npuint8"])]
+    if ct == "npfloat":
+        return ct, [rng.choice(["npfloat64", "npfloat32"])]
+    if ct == "npcomplex":
+        return ct, [rng.choice(["npcomplex128", "npcomplex64"])]
+    tys = CT[ct]
+    if real:
+        tys = [t if t in REAL_TYS else "float" for t in tys]
+    return ct, tys
+
+def g_coef(rng, zero_p=0.06, tys=None):
+    ty = rng.choice(tys or CT["mixed"])
+    unsigned = ty == "npuint8"
     def nz():
         while True:
-            k = rng.randint(-24, 24)
+            k = rng.randint(1 if unsigned else -24, 24)
             if k:
                 return k
+    if ty == "complex0":                       # a Python complex with zero imaginary part
+        return [nz(), 0, rng.randint(0, 3), "complex"] if rng.random() >= zero_p else [0, 0, 0, "complex"]
     if rng.random() < zero_p:
         return [0, 0, 0, ty]
-    if ty == "int":
+    if ty in INT_TYS:
         return [nz(), 0, 0, ty]
     e = rng.randint(0, 3)
-    if ty == "float":
+    if ty in REAL_TYS:
         return [nz(), 0, e, ty]
     r = rng.random()
     if r < 0.25:
@@ -171,10 +217,10 @@ def g_ops(rng, maxq):
     qs = rng.sample(range(maxq), k)            # dict construction order: random
     return [[q, rng.choice("XYYYZ")] for q in qs]
 
-def g_term(rng, maxq, zero_p=0.06, real=False):
-    return dict(k="T", c=g_coef(rng, zero_p, real), ops=g_ops(rng, maxq))
+def g_term(rng, maxq, zero_p=0.06, tys=None):
+    return dict(k="T", c=g_coef(rng, zero_p, tys), ops=g_ops(rng, maxq))
 
-def g_sum(rng, maxq, real=False):
+def g_sum(rng, maxq, tys=None):
     n = rng.choice([0, 1, 2, 2, 3, 3, 4, 5])
     terms = []
     for _ in range(n):
@@ -182,54 +228,106 @@ def g_sum(rng, maxq, real=False):
             src = rng.choice(terms)
             ops = list(src["ops"])
             rng.shuffle(ops)
-            if rng.random() < 0.4:
-                c = [-src["c"][0], -src["c"][1], src["c"][2], "complex"]
+            if rng.random() < 0.4 and src["c"][3] != "npuint8":
+                c = [-src["c"][0], -src["c"][1], src["c"][2], src["c"][3]]       # cancels, same numeric type
             else:
-                c = g_coef(rng, real=real)
+                c = g_coef(rng, tys=tys)
             terms.append(dict(k="T", c=c, ops=ops))
         else:
-            terms.append(g_term(rng, maxq, real=real))
+            terms.append(g_term(rng, maxq, tys=tys))
     return dict(k="S", terms=terms)
 
 def g_operand(rng, maxq, real=False):
-    return g_term(rng, maxq, real=real) if rng.random() < 0.35 else g_sum(rng, maxq, real=real)
+    """an operand and the label of the numeric-type mix of its coefficients"""
+    ct, tys = g_ct(rng, real)
+    o = g_term(rng, maxq, tys=tys) if rng.random() < 0.35 else g_sum(rng, maxq, tys=tys)
+    o["ct"] = ct if ct not in ("npint", "npfloat", "npcomplex") else tys[0]
+    return o
 
-def g_state(rng, n):
+ST_KINDS = ["list-complex", "list-complex", "list-complex", "nd-complex128", "nd-complex64",
+            "list-float", "nd-float64", "nd-float32", "list-int", "nd-int64", "nd-int8"]
+
+def g_state(rng, n, st="list-complex"):
     """dyadic unit state: weights 2^-k on distinct basis states, amplitude of weight 2^-k is a unit times
-    2^(-k/2) (k even) or (+-1 +-i) 2^(-(k+1)/2) (k odd); returned as [[re, im, e], ...]"""
+    2^(-k/2) (k even) or (+-1 +-i) 2^(-(k+1)/2) (k odd); returned as [[re, im, e], ...].
+    Real containers (float): only even k and real units; integer containers: one basis state, amplitude +-1."""
     d = 2 ** n
+    cls = "int" if "int" in st else "float" if "float" in st else "complex"
     ws = [0]
-    while len(ws) < d and rng.random() < 0.8:
+    while cls != "int" and len(ws) < d and rng.random() < 0.8:
         i = rng.randrange(len(ws))
         if ws[i] >= 6:
             break
-        ws[i] += 1
-        ws.insert(i, ws[i])
+        if cls == "float":                      # 2^-k -> four times 2^-(k+2)
+            if len(ws) + 3 > d:
+                break
+            ws[i] += 2
+            for _ in range(3):
+                ws.insert(i, ws[i])
+        else:
+            ws[i] += 1
+            ws.insert(i, ws[i])
     pos = rng.sample(range(d), len(ws))
     amps = [[0, 0, 0] for _ in range(d)]
     for p, k in zip(pos, ws):
         if k % 2 == 0:
-            re, im = rng.choice([(1, 0), (-1, 0), (0, 1), (0, -1)])
+            re, im = rng.choice([(1, 0), (-1, 0)] if cls != "complex" else [(1, 0), (-1, 0), (0, 1), (0, -1)])
             amps[p] = [re, im, k // 2]
         else:
             amps[p] = [rng.choice([1, -1]), rng.choice([1, -1]), (k + 1) // 2]
     return amps
 
-def g_matrix(rng, n, maxq):
+def mk_state(amps, st):
+    """the amplitudes in the container / numeric type named by st"""
+    vals = [complex(Fraction(a[0], 2 ** a[2]), Fraction(a[1], 2 ** a[2])) for a in amps]
+    if st == "list-complex":
+        return vals
+    if st == "list-float":
+        return [z.real for z in vals]
+    if st == "list-int":
+        return [int(z.real) for z in vals]
+    dt = getattr(np, st[3:])
+    return np.array(vals if "complex" in st else [z.real for z in vals]).astype(dt)
+
+MT_KINDS = ["list-mixed", "list-mixed", "list-mixed", "list-int", "list-float", "nd-complex128", "nd-complex64",
+            "nd-float64", "nd-float32", "nd-int64", "nd-int64", "nd-int32", "nd-int8", "nd-uint8"]
+
+def g_matrix(rng, n, maxq, mt="list-mixed"):
+    """entries [re, im, e] that the container / numeric type named by mt can hold exactly"""
     d = 2 ** n
+    cls = "uint" if "uint" in mt else "int" if "int" in mt else "float" if "float" in mt else "complex"
     r = rng.random()
     def ent(p_zero):
         if rng.random() < p_zero:
             return [0, 0, 0]
+        if cls == "uint":
+            return [rng.randint(0, 12), 0, 0]
+        if cls == "int":
+            return [rng.randint(-12, 12), 0, 0]
         e = rng.randint(0, 2)
-        return [rng.randint(-12, 12), rng.randint(-12, 12) if rng.random() < 0.7 else 0, e]
-    if r < 0.45:
+        return [rng.randint(-12, 12), rng.randint(-12, 12) if cls == "complex" and rng.random() < 0.7 else 0, e]
+    if r < 0.45 or (r >= 0.7 and cls == "uint"):
         return [[ent(0.1) for _ in range(d)] for _ in range(d)]
     if r < 0.7:
         return [[ent(0.8) for _ in range(d)] for _ in range(d)]
-    op = g_sum(rng, n)                          # the matrix of a random operator: few non-zero coefficients
+    # the matrix of a random operator: few non-zero coefficients (Y-free and integer coefficients where the type needs it)
+    op = g_sum(rng, n, tys=["int"] if cls == "int" else ["float"] if cls == "float" else None)
+    if cls != "complex":
+        for t in op["terms"]:
+            t["ops"] = [[q, a if a != "Y" else "X"] for q, a in t["ops"]]
     m = dense(op, n)
     return [[from_number(z) for z in row] for row in m]
+
+def mk_matrix(rows, mt):
+    vals = [[complex(Fraction(a[0], 2 ** a[2]), Fraction(a[1], 2 ** a[2])) for a in r] for r in rows]
+    if mt == "list-mixed":
+        return [[(z.real if z.imag == 0 else z) for z in r] for r in vals]      # floats where the entry is real
+    if mt == "list-float":
+        return [[z.real for z in r] for r in vals]
+    if mt == "list-int":
+        return [[int(z.real) for z in r] for r in vals]
+    dt = getattr(np, mt[3:])
+    return np.array(vals if "complex" in mt else [[z.real for z in r] for r in vals]).astype(dt)
 
 def gen(rng, tier):
     quick = tier == "quick"
@@ -265,17 +363,21 @@ def gen(rng, tier):
         elif r < 0.8:
             n = rng.randint(1, maxq)
             op = g_operand(rng, n if rng.random() < 0.88 else n + 1)
-            yield dict(kind="expect", op=op, n=n, amps=g_state(rng, n), rev=rng.random() < 0.5)
+            st = rng.choice(ST_KINDS)
+            yield dict(kind="expect", op=op, n=n, amps=g_state(rng, n, st), st=st, rev=rng.random() < 0.5)
         elif r < 0.97:
             n = rng.choice([1, 1, 2, 2, 2, 3] if quick else [1, 2, 2, 3, 3])
-            yield dict(kind="frommat", rows=g_matrix(rng, n, maxq), arr=rng.random() < 0.2)
+            mt = rng.choice(MT_KINDS)
+            yield dict(kind="frommat", rows=g_matrix(rng, n, maxq, mt), mt=mt)
         else:
             d = rng.choice([3, 5, 6])
             if rng.random() < 0.5:
                 rows = [[[rng.randint(-3, 3), 0, 0] for _ in range(d)] for _ in range(d)]
+                mt = rng.choice(["list-int", "list-mixed", "nd-int64", "nd-float64"])
             else:
                 rows = [[[rng.randint(-3, 3), 0, 0] for _ in range(rng.choice([1, 3, 4]))] for _ in range(2)]
-            yield dict(kind="frommat", rows=rows)
+                mt = rng.choice(["list-int", "list-mixed"])
+            yield dict(kind="frommat", rows=rows, mt=mt)
 
 # ----------------------------------------------------------------------------- cases
 
@@ -291,6 +393,7 @@ def run_case_(inp):
         return case_frommat(inp)
     o = inp["op"]
     nt = nontrivial(o) if o["k"] != "N" else False
+    ct = "-" + o.get("ct", "mixed")                    # numeric-type mix of the coefficients, part of the kind label
     if kind == "sparse":
         n = inp["n"]
         st, out = outcome(lambda: get_sparse_operator(to_py(o), n).toarray(), timeout=30)
@@ -307,7 +410,7 @@ def run_case_(inp):
         if pyw != w:
             ok, msg = False, f"n_qubits = {pyw} for {to_py(o)}"
         return dict(chk=f"sparse_eqb {coq_operand(o)} {cnat(n)} {coq} && width_eqb {coq_operand(o)} {cnat(pyw)}",
-                    oracle_ok=ok, oracle_msg=msg, kind=kind + ("" if st == "ok" else "-rejected") + ("-empty" if not terms_of(o) else ""),
+                    oracle_ok=ok, oracle_msg=msg, kind=kind + ("" if st == "ok" else "-rejected") + ("-empty" if not terms_of(o) else ct),
                     nontrivial=nt and st == "ok")
     if kind == "hconj":
         st, out = outcome(lambda: hermitian_conjugated(to_py(o)))
@@ -322,13 +425,17 @@ def run_case_(inp):
             msg = "" if ok else f"hermitian_conjugated({to_py(o)}) raised {out}"
             coq = "None"
         return dict(chk=f"hconj_eqb {coq_operand(o)} {coq}", oracle_ok=ok, oracle_msg=msg,
-                    kind=kind + ("" if st == "ok" else "-rejected"), nontrivial=nt)
+                    kind=kind + ("" if st == "ok" else "-rejected") + ct, nontrivial=nt)
     if kind == "isherm":
         if inp["simplify"] and o["k"] == "S":
-            o = from_py(to_py(o).simplify())
+            o = from_py(to_py(o).simplify())            # keeps the numeric types simplify returned
         st, out = outcome(lambda: is_hermitian(to_py(o)))
         if st != "ok":
-            return dict(chk="false", oracle_ok=False, oracle_msg=f"is_hermitian({to_py(o)}) raised {out}", kind=kind)
+            c64 = o["k"] == "S" and any(t["c"][3] == "npcomplex64" for t in o["terms"])
+            if c64 and out == "TypeError":              # F41: PauliTerm.__hash__ cannot round a numpy.complex64
+                return dict(chk=None, oracle_ok=False, sig="F41", kind=kind + "-raised" + ct, nontrivial=nontrivial(o),
+                            oracle_msg=f"is_hermitian({to_py(o)}) raised {out} (numpy.complex64 coefficients)")
+            return dict(chk="false", oracle_ok=False, oracle_msg=f"is_hermitian({to_py(o)}) raised {out}", kind=kind + "-raised" + ct)
         out = bool(out)
         n = width(o)
         m = dense(o, n)
@@ -337,7 +444,7 @@ def run_case_(inp):
         ok = (out == herm) if simp else (herm or not out)      # agreement claimed for simplified operators; soundness always
         msg = "" if ok else f"is_hermitian({to_py(o)}) = {out} but the matrix is {'Hermitian' if herm else 'not Hermitian'}"
         return dict(chk=f"isherm_eqb {coq_operand(o)} (Some {cbool(out)})", oracle_ok=ok, oracle_msg=msg,
-                    kind=kind + ("-simplified" if simp else "-unsimplified") + ("-yes" if out else "-no"), nontrivial=nontrivial(o))
+                    kind=kind + ("-simplified" if simp else "-unsimplified") + ("-yes" if out else "-no") + ct, nontrivial=nontrivial(o))
     if kind == "reverse":
         n = inp["n"]
         st, out = outcome(lambda: reverse_qubit_order(to_py(o), n))
@@ -357,11 +464,12 @@ def run_case_(inp):
             msg = "" if ok else f"reverse_qubit_order({to_py(o)}, {n}) raised {out}"
             coq = "None"
         return dict(chk=f"reverse_eqb {coq_operand(o)} {cnat(neff)} {coq}", oracle_ok=ok, oracle_msg=msg,
-                    kind=kind + ("" if st == "ok" else "-rejected") + ("-default" if n is None else ""), nontrivial=nt and st == "ok")
+                    kind=kind + ("" if st == "ok" else "-rejected") + ("-default" if n is None else "") + ct, nontrivial=nt and st == "ok")
     if kind == "expect":
         n, rev = inp["n"], inp["rev"]
         amps = [complex(Fraction(a[0], 2 ** a[2]), Fraction(a[1], 2 ** a[2])) for a in inp["amps"]]
-        st, out = outcome(lambda: get_expectation_value(to_py(o), Wavefunction(amps), rev), timeout=30)
+        stt = inp.get("st", "list-complex")
+        st, out = outcome(lambda: get_expectation_value(to_py(o), Wavefunction(mk_state(inp["amps"], stt)), rev), timeout=30)
         w = width(o)
         v = np.array(amps, dtype=complex)
         if st == "ok":
@@ -377,16 +485,16 @@ def run_case_(inp):
             msg = "" if ok else f"get_expectation_value({to_py(o)}, {amps}, {rev}) raised {out}"
             coq = "None"
         return dict(chk=f"expect_eqb {cnat(n)} {coq_operand(o)} {clist(inp['amps'], coq_num)} {cbool(rev)} {coq}",
-                    oracle_ok=ok, oracle_msg=msg, kind=kind + ("" if st == "ok" else "-rejected") + ("-rev" if rev else ""),
+                    oracle_ok=ok, oracle_msg=msg, kind=kind + ("" if st == "ok" else "-rejected") + ("-rev" if rev else "") + ct + "-state:" + stt,
                     nontrivial=(nt or sum(1 for a in inp["amps"] if a[0] or a[1]) >= 2) and st == "ok")
     raise ValueError(kind)
 
 def case_frommat(inp):
     rows = [[complex(Fraction(a[0], 2 ** a[2]), Fraction(a[1], 2 ** a[2])) for a in r] for r in inp["rows"]]
-    rows = [[(z.real if z.imag == 0 else z) for z in r] for r in rows]      # floats where the entry is real
     d = len(rows)
     square = all(len(r) == d for r in rows)
-    arg = np.array(rows, dtype=complex) if inp.get("arr") and square else rows      # a numpy array instead of a list of rows
+    mt = inp.get("mt", "list-mixed")
+    arg = mk_matrix(inp["rows"], mt)                  # list of rows or numpy array, of the numeric type named by mt
     st, out = outcome(lambda: get_pauliop_from_matrix(arg), timeout=60)
     pow2 = d > 0 and d & (d - 1) == 0
     sig = None
@@ -406,7 +514,7 @@ def case_frommat(inp):
         if square and d == 1:
             sig = "F36"
     return dict(chk=f"frommat_eqb {coq_mat(rows)} {coq}", oracle_ok=ok, oracle_msg=msg, sig=sig,
-                kind="frommat" + (f"-{d}" if st == "ok" else "-rejected") + ("-ndarray" if inp.get("arr") else ""), nontrivial=st == "ok" and d >= 4)
+                kind="frommat" + (f"-{d}" if st == "ok" else "-rejected") + "-" + mt, nontrivial=st == "ok" and d >= 4)
 
 # ----------------------------------------------------------------------------- witnesses
 
@@ -415,9 +523,13 @@ def w_f9():
     bad = st != "ok" or out.shape != (4, 4) or bool(np.any(out != 0))
     return bad, f"get_sparse_operator(PauliSum(), 2) -> {out if st != 'ok' else out.tolist()}"
 
+def w_f38():
+    st, out = outcome(lambda: is_hermitian(PauliSum([PauliTerm({0: "X"}, np.complex64(2))])))
+    return st != "ok" or out is not True, f"is_hermitian(PauliSum([PauliTerm({{0: 'X'}}, np.complex64(2))])) -> {out}"
+
 def w_f36():
     st, out = outcome(lambda: get_pauliop_from_matrix([[1.5]]))
     bad = st != "ok" or not close(dense(from_py(out), 0), np.array([[1.5]]))
     return bad, f"get_pauliop_from_matrix([[1.5]]) -> {out}"
 
-H.main(gen, run_case, {"F9": w_f9, "F36": w_f36})
+H.main(gen, run_case, {"F9": w_f9, "F36": w_f36, "F41": w_f38})
